@@ -4177,7 +4177,8 @@ def fw2_rnd1_ord1(proj, rep, which, modules=None):
         if 'RND1' in which:
             for c in ast.walk(fn):
                 if isinstance(c, ast.Call) and ((isinstance(c.func, ast.Name) and c.func.id in ('int', 'round')) or ast.unparse(c.func).split('.')[-1] in ('floor', 'trunc', 'rint', 'round'))\
-                        and c.args and any(isinstance(x, ast.Call) and ast.unparse(x.func).split('.')[-1] in ('angle', 'arctan2', 'atan2') for x in ast.walk(c.args[0])):
+                        and c.args and any(isinstance(x, ast.Call) and ast.unparse(x.func).split('.')[-1] in ('angle', 'arctan2', 'atan2') for x in ast.walk(c.args[0])) \
+                        and not any(isinstance(x, (ast.Compare, ast.BoolOp)) for x in ast.walk(c.args[0])):
                     nm = c.func.id if isinstance(c.func, ast.Name) else ast.unparse(c.func).split('.')[-1]
                     n['RND1'] += 1
                     rep.touch(m)
@@ -4370,7 +4371,7 @@ def cast1(proj, rep, modules=None):
                     if isinstance(c, ast.Call) and isinstance(c.func, ast.Attribute) and isinstance(c.func.value, ast.Name) and c.func.value.id == arr:
                         if c.func.attr in ('double', 'float', 'half') and not c.args:
                             bad = c
-                        elif c.func.attr in ('to', 'astype', 'type') and c.args and ast.unparse(c.args[0]).split('.')[-1] in _REALF and not isinstance(c.args[0], ast.Constant):
+                        elif c.func.attr in ('to', 'astype', 'type') and c.args and isinstance(c.args[0], (ast.Attribute, ast.Name)) and ast.unparse(c.args[0]).split('.')[-1] in _REALF:
                             bad = c
             if bad is not None:
                 rep.violation('CAST1', fi.qual, f'`{ast.unparse(bad)[:60]}` inside `if {ast.unparse(g.test)[:50]}`: the branch is taken for complex `{arr}` too, and the cast keeps '
@@ -4626,7 +4627,8 @@ def bt1_out2_rk1(proj, rep, which, modules=None):
                         continue
                     # only when the function is not restricted to ndim == 2 on that path
                     import re as _re
-                    guard = any(isinstance(g, (ast.If, ast.Assert)) and (f'{x.value.id}.ndim==2' in ast.unparse(g.test).replace(' ', '')
+                    guard = any(isinstance(g, (ast.If, ast.Assert, ast.IfExp)) and (any(q in ast.unparse(g.test).replace(' ', '') for q in (
+                        f'{x.value.id}.ndim==2', f'{x.value.id}.ndim<=2', f'{x.value.id}.ndim<3', f'len({x.value.id}.shape)==2', f'{x.value.id}.dim()==2'))
                                                                          or _re.search(r'\b%s\.shape==\([^(),]+,[^(),]+\)' % _re.escape(x.value.id), ast.unparse(g.test).replace(' ', '')))
                                 for g in ast.walk(fn))
                     n['BT1'] += 1
@@ -4653,7 +4655,7 @@ def bt1_out2_rk1(proj, rep, which, modules=None):
         if 'RK1' in which:
             for c in ast.walk(fn):
                 if isinstance(c, ast.Call) and ast.unparse(c.func).split('.')[-1] in ('cumsum', 'sum', 'cumprod', 'prod', 'mean', 'einsum') and any(
-                        k.arg == 'dtype' and ast.unparse(k.value).split('.')[-1] in _REALF for k in c.keywords):
+                        k.arg == 'dtype' and isinstance(k.value, (ast.Attribute, ast.Name)) and ast.unparse(k.value).split('.')[-1] in _REALF for k in c.keywords):
                     arg = c.args[0] if c.args else (c.func.value if isinstance(c.func, ast.Attribute) else None)
                     if arg is None:
                         continue
